@@ -53,9 +53,10 @@ static Wire c12(Reader& r) {
     }
     if (op==13) {
         // geometry level: files g<gid>/model.geom, model.cond, optional extra.tri and dip.txt
-        ll gid=r.z();
+        ll gid=r.z(); const bool usecond = r.done() ? true : (r.z()!=0);     // second integer 0: load without conductivities
         std::string dir="g"+std::to_string(gid)+"/";
-        Geometry geo(dir+"model.geom",dir+"model.cond");
+        std::unique_ptr<Geometry> gp(usecond ? new Geometry(dir+"model.geom",dir+"model.cond") : new Geometry(dir+"model.geom"));
+        Geometry& geo=*gp;
         Wire o{ST_OK,geo.is_nested()?1:0,geo.selfCheck()?1:0};
         if (exists(dir+"extra.tri")) { Mesh m(dir+"extra.tri"); o.push_back(geo.check(m)?1:0); } else o.push_back(2);
         if (exists(dir+"dip.txt")) {
